@@ -99,8 +99,13 @@ ResTypeCopy(objs, op) ==
     {[post |-> Append(objs, [impl |-> "type", tname |-> e.tname, fields |-> e.fields, id |-> "", vals |-> <<>>]),
       ret |-> "ok"]}
 
+\* editing the maps of the Type value obtained from GetType() (and undoing it): whatever it does to the
+\* object itself, it must not show in any other object (the driver reports "leak" otherwise)
+ResTypeEdit(objs, op) == {[post |-> objs, ret |-> "ok"]}
+
 Res(objs, op) ==
     CASE op.op = "New"         -> ResNew(objs, op)
+      [] op.op = "TypeEdit"    -> ResTypeEdit(objs, op)
       [] op.op = "Set"         -> ResSet(objs, op)
       [] op.op = "SetID"       -> ResSetID(objs, op)
       [] op.op = "Copy"        -> ResCopy(objs, op)
@@ -125,7 +130,7 @@ Enabled(objs, op) ==
                     /\ (op.op = "MutSlice" => ~e.vals[op.f].nil /\
                           IF e.fields[op.f].kind = "rel" THEN ~e.fields[op.f].to1 /\ Len(e.vals[op.f].ids) > 0
                           ELSE e.vals[op.f].r > 0 /\ op.v.r > 0)
-              [] op.op \in {"SetID", "Copy", "NewLike", "Marshal", "TypeCopy"} -> IsRes(e)
+              [] op.op \in {"SetID", "Copy", "NewLike", "Marshal", "TypeCopy", "TypeEdit"} -> IsRes(e)
               [] op.op \in {"AddField", "RemoveField"} -> e.impl \in {"soft", "type"}
               [] OTHER -> FALSE
 
